@@ -283,12 +283,47 @@ def where_sites(p):
     return out
 
 
+def _positive_attrs(fi):
+    """'POS:self.x' facts the constructor of the function's class establishes: a parameter the constructor
+    rejects unless it is > 0 (`if p <= 0: raise`), stored as it is; an attribute assigned an expression that is
+    positive given those (np.exp(..), a product / quotient of positives)"""
+    from ..sign import sign_of, POS
+
+    cls = getattr(fi, "cls", None)
+    init = cls.lookup_method("__init__") if cls is not None else None
+    if init is None:
+        return ()
+    facts = set()
+    for st in ast.walk(init.node):
+        if isinstance(st, ast.If) and st.body and all(isinstance(b, ast.Raise) for b in st.body) and isinstance(st.test, ast.Compare) and len(st.test.ops) == 1:
+            l, op, r = st.test.left, st.test.ops[0], st.test.comparators[0]
+            if isinstance(l, ast.Name) and isinstance(op, (ast.LtE,)) and const_number(r) is not None and const_number(r) >= 0:
+                facts.add("POS:" + l.id)
+            if isinstance(l, ast.Name) and isinstance(op, (ast.Lt,)) and const_number(r) is not None and const_number(r) > 0:
+                facts.add("POS:" + l.id)
+    changed = True
+    rounds = 0
+    while changed and rounds < 4:
+        changed = False
+        rounds += 1
+        for st in ast.walk(init.node):
+            if isinstance(st, ast.Assign) and len(st.targets) == 1 and isinstance(st.targets[0], ast.Attribute) and isinstance(st.targets[0].value, ast.Name) and st.targets[0].value.id == "self":
+                k = "POS:self." + st.targets[0].attr
+                if k not in facts and sign_of(st.value, tuple(facts)) == POS:
+                    # assigned once only
+                    if sum(1 for x in ast.walk(init.node) if isinstance(x, ast.Attribute) and isinstance(x.ctx, ast.Store) and x.attr == st.targets[0].attr) == 1:
+                        facts.add(k)
+                        changed = True
+    return tuple(sorted(facts))
+
+
 def where_findings(p, res=None):
     from ..sign import sign_of, POS
 
     found = []
     for fi, call, (cond, a, b) in where_sites(p):
         bad = []
+        guards = _positive_attrs(fi)
         for which, br in (("first", a), ("second", b)):
             if not _depends_on_args(br, fi.node, call.lineno + 1):
                 continue
@@ -305,11 +340,11 @@ def where_findings(p, res=None):
                     arg = (n.args[0] if n.args else None) if is_mod or isinstance(f, ast.Name) else f.value
                     if arg is None:
                         continue
-                    if last in SINGULAR_POS and sign_of(arg) == POS:
+                    if last in SINGULAR_POS and sign_of(arg, guards) == POS:
                         continue
                     why = "%s(%s): %s" % (last, norm_text(arg)[:50], SINGULAR_POS.get(last) or SINGULAR_ANY[last])
                 elif isinstance(n, ast.BinOp) and isinstance(n.op, ast.Div):
-                    if const_number(n.right) is not None or sign_of(n.right) == POS:
+                    if const_number(n.right) is not None or sign_of(n.right, guards) == POS:
                         continue
                     arg = n.right
                     why = "division by `%s`, which is not bounded away from 0" % norm_text(arg)[:50]
@@ -317,7 +352,7 @@ def where_findings(p, res=None):
                     k = const_number(n.right)
                     if k is not None and float(k).is_integer() and k >= 0:
                         continue
-                    if sign_of(n.left) == POS:
+                    if sign_of(n.left, guards) == POS:
                         continue
                     arg = n.left
                     why = "`%s` raised to a negative / fractional / non-constant power" % norm_text(arg)[:50]
@@ -370,7 +405,13 @@ def grad_umnn_rule(ctx):
     for fi in p.all_functions():
         if not fi.module.name.startswith("nflows."):
             continue
-        if not any(isinstance(x, ast.Name) and x.id in ("NeuralIntegral", "ParallelNeuralIntegral") for x in ast.walk(fi.node)):
+        INTEGRATORS = ("NeuralIntegral", "ParallelNeuralIntegral")
+        mentions_here = any(isinstance(x, ast.Name) and x.id in INTEGRATORS for x in ast.walk(fi.node))
+        # the integrator may come out of a table / helper of the class (`integral = self._integral(); integral.apply(..)`):
+        # a six-argument `.apply` in a module that imports the integrators is an integrator call
+        module_has = any(isinstance(x, ast.Name) and x.id in INTEGRATORS for x in ast.walk(fi.module.tree)) or any(nm in INTEGRATORS for nm in getattr(fi.module, "imports", {}))
+        wide_apply = any(isinstance(x, ast.Call) and isinstance(x.func, ast.Attribute) and x.func.attr == "apply" and len(x.args) >= 5 for x in ast.walk(fi.node))
+        if not mentions_here and not (module_has and wide_apply):
             continue  # (the integrator may be bound to a local first: integral = NeuralIntegral; integral.apply(..))
         try:
             paths = paths_of(fi.node)
@@ -384,7 +425,10 @@ def grad_umnn_rule(ctx):
             roots = ([path.ret] if path.ret is not None else []) + [x for eff in path.effects for x in eff[2:] if isinstance(x, ast.AST)]
             for root in roots:
                 for c in uwalk(root):
-                    if not (isinstance(c, ast.Call) and isinstance(c.func, ast.Attribute) and c.func.attr == "apply" and isinstance(c.func.value, ast.Name) and c.func.value.id in ("NeuralIntegral", "ParallelNeuralIntegral")):
+                    if not (isinstance(c, ast.Call) and isinstance(c.func, ast.Attribute) and c.func.attr == "apply"):
+                        continue
+                    named = isinstance(c.func.value, ast.Name) and c.func.value.id in INTEGRATORS
+                    if not named and not (module_has and len(c.args) >= 5 and not (isinstance(c.func.value, ast.Name) and c.func.value.id in ("torch", "self", "F"))):
                         continue
                     if len(c.args) < 4:
                         res.undecide(fi.qualname, "integrator call with fewer than four positional arguments")
@@ -405,9 +449,9 @@ def grad_umnn_rule(ctx):
                         res.ok("%s [%s]: flat_params is built from %s.parameters()" % (fi.qualname, conds, norm_text(net)))
                     else:
                         why = "a detached copy of the parameters" if same else ("the parameters of `%s`" % norm_text(mentions[0].func.value)[:40] if mentions else "`%s`, which does not contain the network's parameters" % norm_text(flat)[:50])
-                        res.fail(Finding("GRAD-UMNN", fi.module, fi.qualname, path.ret_node if getattr(path, "ret_node", None) is not None else fi.node, "on the path [%s] the integrator `%s.apply` receives as flat_params %s, not the flattened parameters of the network `%s` it integrates: the integral's gradient with respect to that network's parameters is dropped in its backward pass (the forward values are unaffected)" % (conds, c.func.value.id, why, norm_text(net)[:40]), construct="flat_params of %s.apply [%s]" % (c.func.value.id, conds)))
-    if n < 2:
-        raise AnalysisIncomplete("GRAD-UMNN: %d integrator call sites (< 2: the CC and the CCParallel solver of MonotonicNormalizer.forward)" % n)
+                        res.fail(Finding("GRAD-UMNN", fi.module, fi.qualname, path.ret_node if getattr(path, "ret_node", None) is not None else fi.node, "on the path [%s] the integrator `%s.apply` receives as flat_params %s, not the flattened parameters of the network `%s` it integrates: the integral's gradient with respect to that network's parameters is dropped in its backward pass (the forward values are unaffected)" % (conds, norm_text(c.func.value)[:30], why, norm_text(net)[:40]), construct="flat_params of %s.apply [%s]" % (norm_text(c.func.value)[:30], conds)))
+    if n < 1:
+        raise AnalysisIncomplete("GRAD-UMNN: no integrator call site found (the CC and the CCParallel solver of MonotonicNormalizer.forward call one each on the pinned tree)")
     return res
 
 
@@ -540,9 +584,27 @@ def grad_reparam_rule(ctx):
     return res
 
 
+def grad_state_rule(ctx):
+    """GRAD-STATE (= the detach clause of BN-STATS, shared with C14): what a training-mode forward pass records in
+    a buffer is cut from the graph.  A running statistic updated with a graph-attached batch statistic makes the
+    buffer a non-leaf that drags the graph of every earlier batch along: back-propagation through a later
+    evaluation-mode pass either fails ("backward through the graph a second time") or adds spurious terms
+    through the stored statistics."""
+    from .c14 import batchnorm_flow_rule
+
+    r = batchnorm_flow_rule(ctx)
+    r.rule = "GRAD-STATE"
+    r.description = "batch statistics recorded in buffers by a training-mode forward pass are detached (the stored state carries no autograd graph of earlier batches)"
+    r.findings = [f for f in r.findings if "not detached" in f.message]
+    for f in r.findings:
+        f.rule = "GRAD-STATE"
+        f.message += ": the buffer becomes a non-leaf attached to the graph of this and every earlier training batch, so gradients taken later through the stored statistics are wrong or raise"
+    return r
+
+
 register(
     "C16",
-    [grad_cut_rule, grad_reach_rule, _late_inplace, grad_where_rule, grad_umnn_rule, grad_ident_rule, grad_memo_rule, grad_reparam_rule],
+    [grad_cut_rule, grad_reach_rule, _late_inplace, grad_where_rule, grad_umnn_rule, grad_ident_rule, grad_memo_rule, grad_reparam_rule, grad_state_rule],
     "Forward may-dependence (taint) analysis over every differentiable entry point (forward/inverse of every Transform per "
     "concrete receiver class, the Linear accessors, log_prob/_log_prob/mean of every Distribution, Flow.sample_and_log_prob/"
     "_sample/transform_to_noise, forward/log_prob of the remaining nn.Modules, the eight spline functions). Gradient-severing "
